@@ -30,7 +30,7 @@ PROPS = {
         projection="contents_diff / state_diff bytes (Emit.contents_diff_t, state_diff_t) against snapshots",
     ),
     "C03": dict(
-        level_text='FULL for the state part: Coq theorems C03_process (no operation sequence panics from any construction within bounds, any bytes, any chunking), C03_perform, C03_emitters and C03_text_views (every accessor/emitter for ALL argument values on reachable screens), plus an abstract work bound (C03cost, when present). CPU seconds are measured by the oracle (thread CPU time, every CSI final with 65535 on 50x132 and 132x50), not proved.',
+        level_text='FULL for the state part: Coq theorems C03_process (no operation sequence panics from any construction within bounds, any bytes, any chunking), C03_perform, C03_emitters and C03_text_views (every accessor/emitter for ALL argument values on reachable screens), plus the cost clause as an abstract work measure (Props/C03cost.v: instrumented copies of every looping model operation tied to the model by erasure theorems; action_cost <= 65535*(2R+C+1) + 33RC+2R^2+2C^2+4R+4C+128 for every parsed action on every reachable screen; every action except IL/SD is bounded independently of its parameter values; the unrepaired ICH loop (defect D3) is proved to cost > 2.1e9 units for n=65535 while the repaired one costs <= 2C^2+4C+3). CPU seconds are measured by the oracle (thread CPU time, every CSI final with 65535 on 50x132 and 132x50), not proved; the unit charges of Vec primitives are read off the Rust code by inspection.',
         families=[("acc", 1200, 30000), ("stream", 800, 30000), ("resize", 500, 15000), ("chunk", 300, 8000)],
         projection="panic-vs-panic on every operation and accessor (res monad of the model)",
     ),
